@@ -73,13 +73,88 @@ func (x *Exec) callFuncValue(fr *Frame, st *State, fv *FuncV, cc *ssa.CallCommon
 		x.callFunction(fr, st, fn, append(append([]SVal(nil), args...), fv.Binds...), pos, k)
 		return
 	}
-	// symbolic function value: look for an abstract function contract by its origin name
-	if c := x.prog.Ifaces[fv.Name]; c != nil {
+	// symbolic function value: abstract contract keyed by its origin (struct field), with an optional list of
+	// candidate functions: the call is then split over the candidates (each used by its own contract)
+	c := x.prog.Ifaces[fv.Name]
+	if c == nil {
+		x.unmodelled["call of function value "+fv.Name] = true
+		k(st, x.havocResult(st, cc.Signature().Results(), "fv"))
+		return
+	}
+	var cands []*ssa.Function
+	for _, cl := range c.ByKind("candidates") {
+		for _, n := range cl.Names {
+			if fn := x.prog.Funcs[n]; fn != nil {
+				cands = append(cands, fn)
+			} else {
+				x.contractError(fmt.Errorf("%s:%d: unknown candidate function %s", cl.File, cl.Line, n))
+				return
+			}
+		}
+	}
+	if len(cands) == 0 {
 		x.applyContract(fr, st, c, fv.Name, nil, args, cc.Signature(), pos, k)
 		return
 	}
-	x.unmodelled["call of function value "+fv.Name] = true
-	k(st, x.havocResult(st, cc.Signature().Results(), "fv"))
+	// requires of the abstract contract are obligations at the call site
+	ecPre := x.evalCtxFor(c, st, st, nil, args, cc.Signature(), nil, true)
+	for _, cl := range c.ByKind("requires") {
+		cl := cl
+		if x.prop != "" && !cl.HasLabel(x.prop) {
+			continue
+		}
+		if err := x.guard(fmt.Sprintf("%s:%d requires", cl.File, cl.Line), func() {
+			g := ecPre.Bool(cl.Expr)
+			o := x.addObl(st, fmt.Sprintf("%s/call(%s)/requires%s(%s)@%s", x.key, fv.Name, cl.LabelString(), cl.Text, x.srcText(pos)), "requires", g, pos, cl.Labels)
+			o.Clause = cl
+			st.Assume(g)
+		}); err != nil {
+			x.contractError(err)
+			return
+		}
+	}
+	rest := st
+	for _, fn := range cands {
+		is := tb.Eq(fv.Id, x.funcId(fn.String()))
+		if is.IsFalse() {
+			continue
+		}
+		s2 := rest.Clone()
+		s2.Assume(is)
+		fn := fn
+		x.callFunction(fr, s2, fn, args, pos, func(s3 *State, res SVal) {
+			// ghost effects of the abstract contract apply to every candidate
+			x.applyGhostSets(s3, c, args, cc.Signature(), res)
+			k(s3, res)
+		})
+		rest.Assume(tb.Not(is))
+	}
+	// none of the candidates: abstract contract
+	x.applyContract(fr, rest, c, fv.Name, nil, args, cc.Signature(), pos, k)
+}
+
+func (x *Exec) applyGhostSets(st *State, c *Contract, args []SVal, sig *types.Signature, res SVal) {
+	var results []SVal
+	switch r := res.(type) {
+	case nil:
+	case *TupleV:
+		results = r.Vals
+	default:
+		results = []SVal{res}
+	}
+	ec := x.evalCtxFor(c, st, st, nil, args, sig, results, false)
+	for _, cl := range c.ByKind("ghostset") {
+		cl := cl
+		if err := x.guard("ghostset", func() {
+			v := ec.Eval(cl.Exprs[1])
+			if v.Const != nil {
+				v = ec.coerceConst(v, x.ghostDecl[cl.Exprs[0].Name])
+			}
+			st.ghost[cl.Exprs[0].Name] = v.V
+		}); err != nil {
+			x.contractError(err)
+		}
+	}
 }
 
 func (x *Exec) havocResult(st *State, res *types.Tuple, hint string) SVal {
@@ -251,9 +326,12 @@ func (x *Exec) applyContract(fr *Frame, st *State, c *Contract, key string, recv
 	ecPre := x.evalCtxFor(c, st, st, recv, args, sig, nil, true)
 	for _, cl := range c.ByKind("requires") {
 		cl := cl
+		if x.prop != "" && !cl.HasLabel(x.prop) {
+			continue
+		}
 		if err := x.guard(fmt.Sprintf("%s:%d requires", cl.File, cl.Line), func() {
 			g := ecPre.Bool(cl.Expr)
-			o := x.addObl(st, fmt.Sprintf("%s/call(%s)/requires(%s)", x.key, key, cl.Text), "requires", g, pos, cl.Labels)
+			o := x.addObl(st, fmt.Sprintf("%s/call(%s)/requires%s(%s)@%s", x.key, key, cl.LabelString(), cl.Text, x.srcText(pos)), "requires", g, pos, cl.Labels)
 			o.Clause = cl
 			st.Assume(g)
 		}); err != nil {
@@ -339,6 +417,24 @@ func (x *Exec) applyAliases(fr *Frame, st, pre *State, c *Contract, aliases []*C
 				}
 			}
 			st.Assume(g)
+		}); err != nil {
+			x.contractError(err)
+			return
+		}
+	}
+	// ghost updates (evaluated in the post state; old(...) refers to the pre state)
+	for _, cl := range c.ByKind("ghostset") {
+		cl := cl
+		if err := x.guard(fmt.Sprintf("%s:%d ghostset", cl.File, cl.Line), func() {
+			name := cl.Exprs[0].Name
+			v := ec.Eval(cl.Exprs[1])
+			if v.Const != nil {
+				v = ec.coerceConst(v, x.ghostDecl[name])
+			}
+			if _, ok := x.ghostDecl[name]; !ok {
+				specFail("ghostset of undeclared ghost %s", name)
+			}
+			st.ghost[name] = v.V
 		}); err != nil {
 			x.contractError(err)
 			return
@@ -433,6 +529,12 @@ func (x *Exec) havocLoc(st *State, loc EV, hint string) {
 		if v.Obj.Dummy {
 			return
 		}
+		if _, isArr := v.Elem.Underlying().(*types.Array); isArr {
+			aobj, base := x.arrayField(st, v)
+			at := v.Elem.Underlying().(*types.Array)
+			x.havocLoc(st, EV{V: &SliceV{Obj: aobj, IsNil: tb.False(), Off: base, Len: tb.BVi(64, at.Len()), Cap: tb.BVi(64, at.Len()), Elem: at.Elem()}}, hint)
+			return
+		}
 		if v.Obj.Array {
 			x.warn("modifies through pointer into array: whole element havocked")
 			x.writeElem(st, v.Obj, v.Idx, v.Path, v.Elem, x.symbolic(st, v.Elem, "hv", false, 1))
@@ -518,6 +620,9 @@ func (x *Exec) nameLookup(fr *Frame, st *State, b *ssa.BasicBlock) func(string) 
 						}
 						if ins.IsAddr {
 							if pv, isP := v.(*PtrV); isP {
+								if _, isArr := pv.Elem.Underlying().(*types.Array); isArr {
+									return EV{V: pv, T: ins.X.Type()}, true
+								}
 								return EV{V: x.load(st, pv, pv.Elem), T: pv.Elem}, true
 							}
 						}
@@ -1016,29 +1121,25 @@ func (x *Exec) errIs(e, t *IfaceV) *Term {
 
 func (x *Exec) lockOp(fr *Frame, st *State, op string, mu SVal, pos token.Pos) {
 	tb := x.tb
-	pv, ok := mu.(*PtrV)
-	if !ok {
-		return
-	}
-	key := fmt.Sprintf("held:%d%s", pv.Obj.ID, pathKey(pv.Path))
-	cur, has := st.ghost[key]
+	// one mutex per client/server object: its state is the ghost variable muState (0 free, 1 shared, 2 exclusive)
+	cur, has := st.ghost["muState"]
 	if !has {
 		cur = tb.BVi(8, 0)
 	}
 	c := cur.(*Term)
 	switch op {
 	case "Lock":
-		x.lockObl(st, fr, "lock-not-held("+x.srcText(pos)+")", tb.Eq(c, tb.BVi(8, 0)), pos)
-		st.ghost[key] = tb.BVi(8, 2)
+		x.lockObl(st, fr, "lock-when-free("+x.srcText(pos)+")", tb.Eq(c, tb.BVi(8, 0)), pos)
+		st.ghost["muState"] = tb.BVi(8, 2)
 	case "RLock":
-		x.lockObl(st, fr, "lock-not-held("+x.srcText(pos)+")", tb.Eq(c, tb.BVi(8, 0)), pos)
-		st.ghost[key] = tb.BVi(8, 1)
+		x.lockObl(st, fr, "lock-when-free("+x.srcText(pos)+")", tb.Eq(c, tb.BVi(8, 0)), pos)
+		st.ghost["muState"] = tb.BVi(8, 1)
 	case "Unlock":
-		x.lockObl(st, fr, "unlock-of-held("+x.srcText(pos)+")", tb.Eq(c, tb.BVi(8, 2)), pos)
-		st.ghost[key] = tb.BVi(8, 0)
+		x.lockObl(st, fr, "unlock-of-exclusive("+x.srcText(pos)+")", tb.Eq(c, tb.BVi(8, 2)), pos)
+		st.ghost["muState"] = tb.BVi(8, 0)
 	case "RUnlock":
-		x.lockObl(st, fr, "runlock-of-rheld("+x.srcText(pos)+")", tb.Eq(c, tb.BVi(8, 1)), pos)
-		st.ghost[key] = tb.BVi(8, 0)
+		x.lockObl(st, fr, "runlock-of-shared("+x.srcText(pos)+")", tb.Eq(c, tb.BVi(8, 1)), pos)
+		st.ghost["muState"] = tb.BVi(8, 0)
 	}
 	st.events = append(st.events, "lock:"+op)
 }
@@ -1046,6 +1147,7 @@ func (x *Exec) lockOp(fr *Frame, st *State, op string, mu SVal, pos token.Pos) {
 func (x *Exec) lockObl(st *State, fr *Frame, what string, g *Term, pos token.Pos) {
 	if x.lockDiscipline {
 		x.addObl(st, fmt.Sprintf("%s/lock/%s", x.key, what), "lock", g, pos, nil)
+		st.Assume(g)
 	}
 }
 
